@@ -48,3 +48,33 @@ func init() {
 		panic(err)
 	}
 }
+
+// ShutErrProtoName is the recording protocol with a Shutdown() that returns an
+// error (C11: what happens to the queued messages of an instance that finishes
+// when its protocol's Shutdown fails).
+const ShutErrProtoName = "VerifShutErrProto"
+
+type shutErrProto struct{ *proto }
+
+func (p *shutErrProto) Shutdown() error { return errors.New("shutdown refuses") }
+
+// ShutErrTokenFor is TokenFor for a run of the protocol whose Shutdown fails.
+func ShutErrTokenFor(t *onet.Token) *onet.Token {
+	c := t.Clone()
+	c.ProtoID = onet.ProtocolNameToID(ShutErrProtoName)
+	return c
+}
+
+func newShutErrProto(n *onet.TreeNodeInstance) (onet.ProtocolInstance, error) {
+	pi, err := newProto(n)
+	if err != nil {
+		return nil, err
+	}
+	return &shutErrProto{pi.(*proto)}, nil
+}
+
+func init() {
+	if _, err := onet.GlobalProtocolRegister(ShutErrProtoName, newShutErrProto); err != nil {
+		panic(err)
+	}
+}
